@@ -473,7 +473,7 @@ impl Prop for C05 {
     fn cases(&self, tier: Tier) -> usize {
         match tier {
             Tier::Quick => 2400,
-            Tier::Thorough => 200000,
+            Tier::Thorough => 100000,
         }
     }
 
